@@ -202,3 +202,106 @@ def rule_alphabet(ctx):
             r.site('%s: from_utf8_unchecked(take(%s.%s))' % (b.path, adt.rsplit('::', 1)[-1], fld), t['s'], 'ok')
     r.check_floor()
     return r
+
+
+# ---------------------------------------------------------------------------------- LINE-RESET (C12)
+
+def rule_line_reset(ctx):
+    """the generated column is relative within a line: whoever advances the line must reset the column (decoder and full encoder)"""
+    from ..rng import place_key
+    f = ctx.facts()
+    r = RuleResult('LINE-RESET', 'the generated-column field is relative to the line (source-map v3): in the decoder every advance of the '
+                                 'line counter resets the running column to 0 on all paths, and the full encoder resets its column '
+                                 'state whenever it writes ";"')
+    r.floor = 2
+    mp = anchors.adt_by_name(f, 'Mapping')['path']
+    # ---- decoder: roles from the Mapping aggregates of the Iterator impl reached from decode_mappings
+    dec = [b for b in f.body_list if b.promoted is None and b.name == 'next' and (b.d.get('impl_trait') or '').endswith('Iterator')
+           and any(s['k'] == 'assign' and s['r']['k'] == 'agg' and s['r'].get('path') == mp for _, s in b.points())]
+    if len(dec) != 1:
+        raise anchors.AnchorMissing('decoder Iterator::next building Mapping values: %d' % len(dec))
+    b = dec[0]
+    line_keys, col_keys = set(), set()
+    members = [m for m in f.body_list if m.promoted is None and (m.d.get('impl_adt') == b.d.get('impl_adt'))]
+    for m in members:
+        for pt, s in m.points():
+            if s['k'] == 'assign' and s['r']['k'] == 'agg' and s['r'].get('path') == mp:
+                ops = dict(zip(s['r']['fields'], s['r']['ops']))
+                for fld, keys in (('generated_line', line_keys), ('generated_column', col_keys)):
+                    o = ops[fld]
+                    from .panics import source_place
+                    sp = source_place(m, o)
+                    if sp is not None:
+                        # normalise to field path below the self reference
+                        keys.add(tuple(x.get('n', x.get('ci', x.get('f'))) if isinstance(x, dict) else x for x in sp['pr']))
+    if len(line_keys) != 1 or len(col_keys) != 1:
+        r.violation('decoder-roles', b.span(), b.path, 'cannot identify the line / column state of the decoder (%s / %s)' % (line_keys, col_keys),
+                    reason='unrecognised-idiom')
+        return r
+    lk, ck = next(iter(line_keys)), next(iter(col_keys))
+
+    def norm(p):
+        return tuple(x.get('n', x.get('ci', x.get('f'))) if isinstance(x, dict) else x for x in p['pr'])
+    for m in members:
+        incs, resets = [], []
+        for pt, s in m.points():
+            if s['k'] != 'assign':
+                continue
+            if norm(s['p']) == lk and not (s['r']['k'] == 'use' and s['r']['o']['k'] == 'const'):
+                incs.append((pt, s))
+            if norm(s['p']) == ck and s['r']['k'] == 'use' and s['r']['o']['k'] == 'const' and s['r']['o'].get('int') == 0:
+                resets.append(pt)
+        for pt, s in incs:
+            ok = any(m.postdominates(rp, pt) or (rp[0] == pt[0]) for rp in resets)
+            r.site('%s: line counter advance is paired with column := 0' % m.path, s['s'], 'ok' if ok else 'violation')
+            if not ok:
+                r.violation('%s:decoder' % m.path, s['s'], m.path,
+                            'the decoder advances the generated line without (on every path) resetting the running generated column: '
+                            'segments after an empty segment / empty line get the previous line\'s column added')
+    # ---- full encoder: writes of ';' are followed by a reset of its column state
+    bufs = find_buffers(f)
+    for (adt, fld), lst in bufs.items():
+        if adt is None:
+            continue
+        colf = None
+        # the column state: the field passed as second argument of encode_vlq together with mapping.generated_column
+        for m in f.body_list:
+            if m.promoted is not None or m.d.get('impl_adt') != adt or m.name != 'encode':
+                continue
+            for pt, t in m.calls():
+                c = t.get('callee')
+                if c and c.get('local') and len(t['args']) == 3:
+                    a1 = m.expr_of_operand(t['args'][1])
+                    if any(x[0] == 'field' and x[2] == 'generated_column' for x in walk(a1)):
+                        for x in walk(m.expr_of_operand(t['args'][2])):
+                            if x[0] == 'field' and x[3] == adt:
+                                colf = x[2]
+            if colf is None:
+                continue
+            semis = []
+            for mm in [m] + f.closures_of(m):
+                for pt, t in mm.calls():
+                    c = t.get('callee')
+                    if c and c['name'] in BYTE_SOURCES and len(t['args']) == 2:
+                        bs = byteset(mm, mm.expr_of_operand(t['args'][1]), f.consts)
+                        if bs is not TOP and ord(';') in bs:
+                            semis.append((mm, pt, t))
+            resets = [pt for pt, s in m.points() if s['k'] == 'assign' and s['p']['pr'] and isinstance(s['p']['pr'][-1], dict)
+                      and s['p']['pr'][-1].get('n') == colf and s['r']['k'] == 'use' and s['r']['o']['k'] == 'const'
+                      and s['r']['o'].get('int') == 0]
+            for mm, pt, t in semis:
+                # the write may sit in a closure (for_each): use the point where the closure is consumed in the parent
+                ppt = pt
+                if mm is not m:
+                    ppt = None
+                    for qpt, qt in m.calls():
+                        if any(x[0] == 'agg' and x[1] == 'closure' and x[2] == mm.path for a in qt['args'] for x in walk(m.expr_of_operand(a))):
+                            ppt = qpt
+                ok = ppt is not None and any(m.postdominates(rp, ppt) for rp in resets)
+                r.site('%s: writing ";" is followed by resetting the column state `%s`' % (m.path, colf), t['s'], 'ok' if ok else 'violation')
+                if not ok:
+                    r.violation('%s:encoder' % m.path, t['s'], m.path,
+                                'the encoder starts a new line without resetting its generated-column state: later columns on that line '
+                                'are encoded relative to the previous line')
+    r.check_floor()
+    return r
